@@ -264,6 +264,15 @@ pub fn gen_queries(spec: &Spec, rng: &mut Rng, count: usize) -> Vec<Q> {
             let max = distinct.last().copied().unwrap_or(0);
             let ty_max: u128 = Ty::max(*ty);
             let sym = |rng: &mut Rng| -> u128 {
+                // sometimes a symbol that agrees with an occurring one in its low 8/16/20/32 bits
+                if !distinct.is_empty() && rng.below(6) == 0 {
+                    let c = *rng.pick(&distinct);
+                    let step = 1u128 << *rng.pick(&[8u32, 16, 20, 32]);
+                    let v = if rng.bool() { c.wrapping_add(step) } else { c.wrapping_sub(step) };
+                    if v <= ty_max {
+                        return v;
+                    }
+                }
                 let c = match rng.below(10) {
                     0 => max.saturating_add(1),
                     1 => max.saturating_add(2),
